@@ -360,8 +360,9 @@ class CHECK(vlib.Check):
                 "mirror_converges_partial / mirror_converges_wire hold for histories in which every change of the tree is announced (no "
                 "quiet SETDATA/REMOVEDATA, except by the observer itself or by a session below whose session node none of the observer's "
                 "subscription paths reaches: quiet_frame; other sessions may subscribe quietly, the observer not) and an observer whose explicit GETDATA "
-                "keys are subscriptions it holds at that moment (same path and filter), which after an unsubscribe inside a BATCH sends no "
-                "SUBSCRIBE:/GETDATA in the rest of that BATCH, and whose SUBSCRIBE: fields per Message have distinct non-empty paths",
+                "keys are subscriptions it holds at that moment (same path and filter), which sends no SUBSCRIBE:/GETDATA between two "
+                "unsubscribes of one BATCH (unsubscribes at the head and in the tail of a BATCH are fine), and whose SUBSCRIBE: fields "
+                "per Message have distinct non-empty paths",
                 "parameter names (Refl/Params.v): REMOVEPARAMETERS of a SUBSCRIBE: name the session does not hold as a parameter does nothing "
                 "('SUBSCRIBE:x' does not remove what 'SUBSCRIBE:/*/*/x' created); modelled as a layer that lowers the commands on the wire",
                 "MatchLaws (Refl/BaseProofs.v): clause text equality is decidable; '*' matches every name; a clause reported unique / "
